@@ -1,6 +1,7 @@
 package main
 
 import (
+	"os/exec"
 	"encoding/json"
 	"flag"
 	"fmt"
@@ -88,6 +89,7 @@ type checkOpts struct {
 	verbose                           bool
 	timeout, workers                  int
 	seed                              int
+	canaries                          []map[string]interface{}
 }
 
 func cmdCheck(args []string) int {
@@ -129,6 +131,10 @@ type unitRun struct {
 func runCheck(o checkOpts) int {
 	start := time.Now()
 	vdir := verifDir()
+	// GOVC_SCRATCH: experiment runs (canaries of the thorough tier, seeded-change sweeps) write all their outputs there
+	if d := os.Getenv("GOVC_SCRATCH"); d != "" {
+		vdir = d
+	}
 	prog, err := loadProgram(o.repo, o.contracts)
 	if err != nil {
 		// the repository does not load / type-check: nothing can be verified; this is a broken input, reported as such
@@ -201,7 +207,7 @@ func runCheck(o checkOpts) int {
 		}
 		obs = append(obs, r.u.Obs...)
 	}
-	runner := &Runner{OutDir: filepath.Join(vdir, "out", "vc", o.prop), Timeout: o.timeout, Workers: o.workers}
+	runner := &Runner{OutDir: filepath.Join(vdir, "out", "vc", o.prop), Timeout: o.timeout, Workers: o.workers, Confirm: o.tier == "thorough"}
 	os.RemoveAll(runner.OutDir)
 	runner.Solve(obs)
 
@@ -271,6 +277,10 @@ func runCheck(o checkOpts) int {
 		kh = append(kh, k)
 	}
 	sort.Strings(kh)
+	if o.tier == "thorough" && o.only == "" && os.Getenv("GOVC_SCRATCH") == "" {
+		o.canaries = runCanaries(o)
+		wall = time.Since(start).Seconds()
+	}
 	writeEvidence(vdir, o, runs, obs, runner, wall, violations, unitErrs, kh)
 	fmt.Printf("govc: %s tier=%s functions=%d obligations=%d discharged=%d failed=%d known=%d unit-errors=%d wall=%.1fs\n",
 		o.prop, o.tier, len(funcs), len(obs), discharged, len(failedNames), len(kh), len(unitErrs), wall)
@@ -499,6 +509,14 @@ func writeEvidence(vdir string, o checkOpts, runs []unitRun, obs []*Obligation, 
 			"contracts_source":         contractsSource(runs),
 		},
 	}
+	if o.tier == "thorough" && runner != nil {
+		cov := ev["coverage"].(map[string]interface{})
+		cov["cross_confirmed_queries"] = runner.Confirmed
+		cov["single_family_queries"] = runner.Unconfirmed
+		cov["solver_disagreements"] = runner.Disagreements
+		cov["selftest_canaries"] = o.canaries
+		cov["thorough_explanation"] = "every discharged query is re-answered by the other solver families within a grace period (cross_confirmed = a second family also said unsat; a sat/unsat disagreement fails the obligation); the stored seeded changes of this property are applied to a scratch copy of the current tree and the check must report each of them (selftest_canaries)"
+	}
 	// GOVC_EVIDENCE_DIR redirects the evidence of experiment runs (seeded changes, ad-hoc mutants) away from /verif/evidence
 	edir := filepath.Join(vdir, "evidence")
 	if d := os.Getenv("GOVC_EVIDENCE_DIR"); d != "" {
@@ -549,4 +567,64 @@ func writeReplay(vdir, prop, name string, data map[string]interface{}) string {
 	b, _ := json.MarshalIndent(data, "", " ")
 	os.WriteFile(p, b, 0o644)
 	return p
+}
+
+// thorough tier self-test: every stored seeded change of this property (/verif/seeded/<prop>-N/patch.diff) is applied to a scratch
+// copy of the current tree and the quick check is run on it; it must exit with a violation.  A canary that does not apply to
+// the current tree is skipped.  A canary that is NOT reported is printed as a warning (it does not change the exit code:
+// it says the check lost sensitivity, not that the property is violated).
+func runCanaries(o checkOpts) []map[string]interface{} {
+	var out []map[string]interface{}
+	seeds, _ := filepath.Glob(filepath.Join(verifDir(), "seeded", o.prop+"-*", "patch.diff"))
+	sort.Strings(seeds)
+	if len(seeds) == 0 {
+		return out
+	}
+	self, err := os.Executable()
+	if err != nil {
+		return out
+	}
+	for _, patch := range seeds {
+		id := filepath.Base(filepath.Dir(patch))
+		rec := map[string]interface{}{"seed": id}
+		scratch, err := os.MkdirTemp("", "govc-canary-")
+		if err != nil {
+			rec["result"] = "skipped: " + err.Error()
+			out = append(out, rec)
+			continue
+		}
+		func() {
+			defer os.RemoveAll(scratch)
+			repoCopy := filepath.Join(scratch, "repo")
+			if b, err := exec.Command("cp", "-a", o.repo, repoCopy).CombinedOutput(); err != nil {
+				rec["result"] = "skipped: copy failed: " + strings.TrimSpace(string(b))
+				return
+			}
+			os.RemoveAll(filepath.Join(repoCopy, ".git"))
+			ap := exec.Command("git", "apply", "--unsafe-paths", "--directory="+repoCopy, patch)
+			ap.Dir = scratch
+			if b, err := ap.CombinedOutput(); err != nil {
+				// fall back to patch(1)-like application from inside the copy
+				ap2 := exec.Command("git", "apply", patch)
+				ap2.Dir = repoCopy
+				if b2, err2 := ap2.CombinedOutput(); err2 != nil {
+					rec["result"] = "skipped: patch does not apply to the current tree: " + strings.TrimSpace(string(b)+" "+string(b2))
+					return
+				}
+			}
+			cmd := exec.Command(self, "check", "--property", o.prop, "--tier", "quick", "--repo", repoCopy, "--contracts", o.contracts)
+			cmd.Env = append(os.Environ(), "GOVC_SCRATCH="+filepath.Join(scratch, "out"), "VERIF_TIER=quick")
+			b, _ := cmd.CombinedOutput()
+			n := strings.Count(string(b), "VIOLATION property=")
+			rec["violations_reported"] = n
+			if n > 0 {
+				rec["result"] = "detected"
+			} else {
+				rec["result"] = "NOT DETECTED"
+				fmt.Printf("SELFTEST-WARNING: property=%s seeded change %s was not reported by the check\n", o.prop, id)
+			}
+		}()
+		out = append(out, rec)
+	}
+	return out
 }
